@@ -2131,6 +2131,7 @@ class EntityDef:
             file.write(') ')
 
         kv_order_list: list[str] = []
+        wrote_helper = False
 
         for helper in self.helpers:
             args = helper.export()
@@ -2139,6 +2140,7 @@ class EntityDef:
                 kv_order_list += [arg.casefold() for arg in args]
             if helper.IS_EXTENSION and not custom_syntax:
                 continue
+            wrote_helper = True
             if isinstance(helper, HelperHalfGridSnap):
                 # Special case, no args.
                 file.write('\n\thalfgridsnap')
@@ -2149,7 +2151,7 @@ class EntityDef:
             else:
                 raise TypeError(f'Helper {helper!r} has no TYPE attr?')
 
-        if self.helpers:
+        if wrote_helper:
             file.write('\n')  # Put the classname on the following line.
         file.write(f'= {self.classname}')
 
